@@ -155,5 +155,7 @@ def check(ctx):
     r_stack(ctx)
     r_call_site(ctx)
     # the loop is unrolled for the bit width the counter type reports
+    from . import c12
+    c12.r_argument_scopes(ctx)      # the loop body is compiled in a child scope: its `param::X` must resolve
     from . import c07
     c07.r_uint_tables(ctx, only={'bit_width', 'from_bit_width'})
